@@ -1,5 +1,6 @@
 import MitumModel.Common
 import MitumModel.Model.Reopen
+import MitumModel.Model.ReopenTemps
 import MitumModel.Gen.C20
 namespace Mitum.Driver
 open Mitum Mitum.Reopen
@@ -16,5 +17,23 @@ def stepC20 (ts : List String) : String :=
       if readBytes (load keeps (persist f).2) = readBytes (persist f).1 ∧ readObject (load keeps (persist f).2) = readObject (persist f).1
       then "same" else "differs"
     | none => "bad-op"
+  | "temps" :: ops =>
+    -- `temps <op>…` with c = commit, a<h> = abandoned writer of height h, r<h> = RemoveBlocks(h), m = merge of the
+    -- oldest temp into the permanent database, x = cleanRemoved: the last height a Center opened anew reports
+    let code : ReopenTemps.Code := { scansAll := Gen.C20.loadTempScansAll, removesOnDisk := Gen.C20.removeBlocksRemovesOnDisk }
+    let parse (t : String) : Option ReopenTemps.Op :=
+      if t = "c" then some .commit
+      else if t = "m" then some .mergePerm
+      else if t = "x" then some .clean
+      else if t.startsWith "a" then (t.drop 1).toNat?.map .abandon
+      else if t.startsWith "r" then (t.drop 1).toNat?.map .remove
+      else none
+    match ops.mapM parse with
+    | none => "bad-op"
+    | some os =>
+      let s := os.foldl (ReopenTemps.step code) ReopenTemps.init
+      let n := s.perm + (ReopenTemps.reopen code s).length
+      let before := s.perm + s.mem.length
+      s!"before={before} after={n}"
   | _ => "bad-op"
 end Mitum.Driver
